@@ -31,6 +31,18 @@ Theorem C11_scheme : forall t, scheme_https t = false <-> t = TLSDisabled.
 Proof. intros []; cbn; split; congruence. Qed.
 Print Assumptions C11_scheme.
 
+(* the URL scheme a request leaves with (Model/C11_Scheme.v): built from the host configuration, or a server-supplied URL /
+   redirect Location pointing back at the registry's own host - for a host configured for TLS (enabled or insecure) it is
+   https; limiting the upgrade of an http Location to tls: enabled is refuted for tls: insecure *)
+From Verif Require Import Model.C11_Scheme Proofs.C11s.
+Theorem C11_own_host_never_cleartext : forall t given,
+  t <> TLSDisabled -> (given = None \/ exists h, given = Some (h, true)) -> sent_https t given = true.
+Proof. exact own_host_never_cleartext. Qed.
+Print Assumptions C11_own_host_never_cleartext.
+Theorem C11_upgrade_for_enabled_only_refuted : exists t given, t <> TLSDisabled /\ (exists h, given = Some (h, true)) /\ sent_https_enabled_only t given = false.
+Proof. exact enabled_only_refuted. Qed.
+Print Assumptions C11_upgrade_for_enabled_only_refuted.
+
 Example C11_nonvacuous :
   let r := mkO 1 10 true false in let m := mkO 2 11 false true in
   run false [] [ARequest r 10; AChallenge r 10 (KBearer 12); AToken r 10; ARequest r 10; ARequest m 11; AChallenge m 11 KBasic; ARequest m 11;
